@@ -396,3 +396,54 @@ def check_residual_ranks(prog, report):
                                 sorted(r) if r else r),
                 construct='ErrorEstimator.residual: rank of %s stored into '
                 'result[i]' % name)
+
+
+
+def check_stale_loop_names(prog, report, sites):
+    """A for-loop target that rebinds a parameter (or a closure argument) of
+    the enclosing function holds the *last* item after the loop; reading the
+    name after the loop as if it still were the argument broadcasts that one
+    item.  sites: [(file, qualname)]"""
+    n = 0
+    for file, q in sites:
+        fi = prog.func(file, q)
+        funcs = [fi.node] + [m for m in ast.walk(fi.node) if isinstance(
+            m, (ast.FunctionDef, ast.AsyncFunctionDef)) and m is not fi.node]
+        for fn in funcs:
+            params = {a.arg for a in fn.args.args + fn.args.kwonlyargs}
+
+            def scan(stmts):
+                nonlocal n
+                for i, st in enumerate(stmts):
+                    if isinstance(st, ast.For):
+                        n += 1
+                        rebound = {m.id for m in ast.walk(st.target)
+                                   if isinstance(m, ast.Name)} & params
+                        later = set()
+                        for s2 in stmts[i + 1:]:
+                            for m in ast.walk(s2):
+                                if isinstance(m, ast.Name) and isinstance(
+                                        m.ctx, ast.Load):
+                                    later.add(m.id)
+                        stale = sorted(rebound & later)
+                        report.check(
+                            not stale, 'R-scalar',
+                            '%s loop over `%s`' % (
+                                q.split('.')[-1], text(st.iter)[:40]),
+                            fi.where(st),
+                            'loop targets that shadow arguments (%s) are '
+                            'not read after the loop%s' % (
+                                sorted(rebound) or 'none',
+                                ': %s holds the last item there' % stale
+                                if stale else ''),
+                            construct='%s: argument read after a loop that '
+                            'rebinds it' % q.split('.')[-1])
+                    for f in ('body', 'orelse', 'finalbody'):
+                        sub = getattr(st, f, None)
+                        if isinstance(sub, list) and sub and isinstance(
+                                sub[0], ast.stmt) and not isinstance(
+                                    st, (ast.FunctionDef,
+                                         ast.AsyncFunctionDef)):
+                            scan(sub)
+            scan(fn.body)
+    return n
